@@ -23,7 +23,7 @@ RULE = ("scenarios {same variable, two images of one tree, tree + pickled copy} 
         "(34650 orders when uncontended)} plus line-level schedules (yield points at every statement start of array.py / xarray.py on "
         "the read path in addition to I/O and lock points; every schedule with at most 2 preemptions for 2 threads x 1 chunk (thorough also 2 x 2) and "
         "at most 1 for 3 threads, enumerated completely; thorough additionally samples bound 3 (2 threads) and bound 2 (3 threads) depth-first up to "
-        "15000 / 10000 runs per shard) plus seeded random schedules of larger loads (2-4 threads on up to 4 images, 1-3 chunks "
+        "6000 / 4000 runs per shard) plus seeded random schedules of larger loads (2-4 threads on up to 4 images, 1-3 chunks "
         "each, mixed selections) and free-running threads (3-5 threads x 25-60 loads) with sleep(0) injected by a sys.monitoring LINE "
         "callback at statement starts of array.py / xarray.py (non-deterministic, seeds logged); thorough adds 3 threads x 2 chunks coarse. evaluations = schedules executed; distinct = distinct executed interleavings "
         "(trace strings) per scenario; non-trivial = schedule in which at least two threads' file operations interleave or contend")
@@ -64,9 +64,9 @@ def _plan(tier):
         # deeper bounds are sampled: each shard explores its share of the top-level branches depth-first up to a run limit
         for sc in SCENARIOS:
             for k in range(32):
-                cases.append(("pb", sc, 2, 1, (3, k, 32, 15000)))
+                cases.append(("pb", sc, 2, 1, (3, k, 32, 6000)))
             for k in range(32):
-                cases.append(("pb", sc, 3, 1, (2, k, 32, 10000)))
+                cases.append(("pb", sc, 3, 1, (2, k, 32, 4000)))
             for k in range(32):
                 cases.append(("pb", sc, 2, 2, (2, k, 32, None)))  # complete
     nrand = 48 if tier == "quick" else 600
